@@ -109,8 +109,9 @@ func ruleLookupTable(c *Ctx) {
 		}
 		var consults []consult
 		loopOf := map[*ast.CallExpr]*ast.RangeStmt{}
-		indexed := map[string]bool{}     // recv path (joined) indexed by the token
-		atoiIndexed := map[string]bool{} // indexed by strconv.Atoi(token) result
+		dispatch := map[*ast.CallExpr]bool{} // one consultation call serving several parts chosen beforehand
+		indexed := map[string]bool{}         // recv path (joined) indexed by the token
+		atoiIndexed := map[string]bool{}     // indexed by strconv.Atoi(token) result
 		atoiVars := map[types.Object]bool{}
 		cmpConsts := map[string]bool{}
 		ast.Inspect(fd.Body, func(nd ast.Node) bool {
@@ -142,6 +143,32 @@ func ruleLookupTable(c *Ctx) {
 									}
 								}
 								consults = append(consults, consult{p.Steps[0], call, lhs, false})
+							} else if id, ok := unparen(call.Args[0]).(*ast.Ident); ok && loopOf[call] == nil {
+								// a local that holds one of several parts of the receiver, chosen by a dispatch on the token
+								var comps []string
+								all := true
+								for _, d := range c.localDefs(fd)[c.objOf(id)] {
+									if d == nil {
+										continue
+									}
+									if dp, ok := c.apath(d); ok && dp.Root == recv && len(dp.Steps) > 0 {
+										comps = append(comps, dp.Steps[0])
+									} else {
+										all = false
+									}
+								}
+								if all && len(comps) > 0 {
+									var lhs []types.Object
+									for _, l := range x.Lhs {
+										if lid, ok := l.(*ast.Ident); ok {
+											lhs = append(lhs, c.objOf(lid))
+										}
+									}
+									for _, comp := range comps {
+										consults = append(consults, consult{comp, call, lhs, false})
+									}
+									dispatch[call] = true
+								}
 							}
 						} else if okW, filt := c.lookupWrapper(call, formats); okW && len(call.Args) == 2 && isTok(call.Args[1]) {
 							if p, ok := c.apath(call.Args[0]); ok && p.Root == recv && len(p.Steps) > 0 {
@@ -272,6 +299,9 @@ func ruleLookupTable(c *Ctx) {
 		}
 		// (iii) fall-through between consultations, final return
 		nested := map[*ast.CallExpr]bool{} // consultation inside a dispatch branch (union types): no fall-through expected
+		for call := range dispatch {
+			nested[call] = true
+		}
 		c.walkWithIfStack(fd.Body, func(nd ast.Node, ifs []*ast.IfStmt) {
 			if call, ok := nd.(*ast.CallExpr); ok && len(ifs) > 0 {
 				for _, i := range ifs {
@@ -312,28 +342,67 @@ func ruleLookupTable(c *Ctx) {
 			if loop := loopOf[cn.call]; loop != nil {
 				regionEnd = loop.End()
 			}
-			c.walkWithIfStack(fd.Body, func(nd ast.Node, ifs []*ast.IfStmt) {
+			ast.Inspect(fd.Body, func(nd ast.Node) bool {
 				rs, isR := nd.(*ast.ReturnStmt)
 				if !isR || rs.Pos() < cn.call.End() || rs.Pos() > regionEnd {
-					return
+					return true
 				}
-				var guard *ast.IfStmt
-				for _, i := range ifs {
-					if i.Pos() > cn.call.End() {
-						guard = i
-						break
+				// the conditions in force at the return that were tested after the consultation
+				var lits []condLit
+				for _, cl := range c.literalsAt(fd, rs) {
+					if cl.e.Pos() > cn.call.End() {
+						lits = append(lits, cl)
 					}
 				}
-				if guard == nil {
+				if len(lits) == 0 {
 					ok, why = false, "unconditional return before the next component is consulted: its members are unreachable"
-					return
+					return true
+				}
+				// the consultation's own result is handed back under nothing stricter than "it is non-nil"
+				if len(rs.Results) > 0 && len(cn.lhs) > 0 && cn.lhs[0] != nil {
+					if rid, isId := unparen(rs.Results[0]).(*ast.Ident); isId && c.objOf(rid) == cn.lhs[0] {
+						for _, cl := range lits {
+							mentions := false
+							ast.Inspect(cl.e, func(m ast.Node) bool {
+								if id, ok := m.(*ast.Ident); ok && c.objOf(id) == cn.lhs[0] {
+									mentions = true
+								}
+								return true
+							})
+							if !mentions {
+								continue
+							}
+							isNilCmp := false
+							for _, d := range splitDisj(cl) {
+								if be, isB := unparen(d.e).(*ast.BinaryExpr); isB && (be.Op == token.NEQ || be.Op == token.EQL) && (isNilIdent(c, be.Y) || isNilIdent(c, be.X)) {
+									isNilCmp = true
+								}
+							}
+							if !isNilCmp {
+								ok, why = false, "the value found by this consultation is returned only when "+exprString(cl.e)+": a member that is present with a zero value (0, false, \"\") is reported missing although the JSON form has it"
+							}
+						}
+					}
 				}
 				returnsErr := len(rs.Results) == 2 && !isNilIdent(c, rs.Results[1])
 				if returnsErr && cn.filtered {
-					return // the helper already swallowed the not-found case: any error left is a real one
+					return true // the helper already swallowed the not-found case: any error left is a real one
+				}
+				// "something was found" (the consultation's value is non-nil): whatever accompanies it is not the not-found error
+				for _, cl := range lits {
+					if be, isB := unparen(cl.e).(*ast.BinaryExpr); isB && (be.Op == token.NEQ && !cl.neg || be.Op == token.EQL && cl.neg) && isNilIdent(c, be.Y) {
+						if id, isId := unparen(be.X).(*ast.Ident); isId && len(cn.lhs) > 0 && c.objOf(id) == cn.lhs[0] {
+							returnsErr = false
+						}
+					}
 				}
 				if returnsErr {
-					cst, neg := c.notFoundTest(guard.Cond)
+					cst, neg := "", false
+					for _, cl := range lits {
+						if k, n := c.notFoundTest(cl.e); k != "" {
+							cst, neg = k, n != cl.neg
+						}
+					}
 					switch {
 					case cst == "":
 						ok, why = false, "an error from this consultation is returned without testing for the not-found case, so a member of a later component is reported missing"
@@ -351,6 +420,7 @@ func ruleLookupTable(c *Ctx) {
 						}
 					}
 				}
+				return true
 			})
 			c.ob(rule, key, cn.call.Pos(), ok, why)
 		}
